@@ -401,7 +401,7 @@ func ParentMain(id, tier string, seed int64) int {
 			n = k
 		}
 	}
-	tmp := filepath.Join(Root, "out", "partial", id)
+	tmp := filepath.Join(Root, "out", "partial", fmt.Sprintf("%s-%d", id, os.Getpid()))
 	os.RemoveAll(tmp)
 	os.MkdirAll(tmp, 0o755)
 	defer os.RemoveAll(tmp)
